@@ -87,7 +87,10 @@ Setups(fam) ==
         [par |-> "unit", box |-> "sym", amp |-> Num(1, 1, 0), size |-> Num(0, 1, 0),
          b |-> Box(Num(-1, 1, 0), Num(1, 1, 0), Num(-1, 1, 0), Num(1, 1, 0), Num(7, 3, 0))],
         [par |-> "neg", box |-> "flat", amp |-> Num(-5, 2, -5), size |-> Num(0, 1, 0),
-         b |-> Box(Num(-2, 1, 0), Num(2, 1, 0), Num(-1, 1, 0), Num(1, 1, 0), Num(0, 1, 0))] >>
+         b |-> Box(Num(-2, 1, 0), Num(2, 1, 0), Num(-1, 1, 0), Num(1, 1, 0), Num(0, 1, 0))],
+        \* box limits that are not integers, around integer lattice points
+        [par |-> "unit", box |-> "frac", amp |-> Num(1, 1, 0), size |-> Num(0, 1, 0),
+         b |-> Box(Num(1, 2, 0), Num(7, 2, 0), Num(-3, 2, 0), Num(5, 2, 0), Num(0, 1, 0))] >>
       [] fam = "cell" -> <<
         [par |-> "unit", box |-> "full", amp |-> Num(1, 1, 0), size |-> Num(2, 1, 0),
          b |-> Box(Num(-1, 1, 0), Num(1, 1, 0), Num(-1, 1, 0), Num(1, 1, 0), Num(0, 1, 0))],
@@ -103,7 +106,7 @@ Setups(fam) ==
         [par |-> "unit", box |-> "wedge", amp |-> Num(1, 1, 0), size |-> Num(0, 1, 0),
          b |-> Box(Num(0, 1, 0), Num(5, 1, 0), Num(-1, 1, 0), Num(0, 1, 0), Num(0, 1, 0))],
         [par |-> "unit", box |-> "deep", amp |-> Num(1, 1, 0), size |-> Num(0, 1, 0),
-         b |-> Box(Num(1, 2, 0), Num(5, 1, 0), Num(-1, 1, 0), Num(-1, 10, 0), Num(0, 1, 0))],
+         b |-> Box(Num(1, 2, 0), Num(5, 1, 0), Num(-5, 2, 0), Num(-1, 10, 0), Num(0, 1, 0))],
         [par |-> "geo", box |-> "wedge", amp |-> Num(63, 10, -10), size |-> Num(0, 1, 0),
          b |-> Box(Num(0, 1, 0), Num(1, 1, 6), Num(-2, 1, 5), Num(0, 1, 0), Num(0, 1, 0))],
         [par |-> "unit", box |-> "left", amp |-> Num(1, 1, 0), size |-> Num(0, 1, 0),
@@ -130,7 +133,7 @@ Mod == IF Tier = "thorough" THEN 1 ELSE 37
 Seed == IF "VERIF_SEED" \in DOMAIN IOEnv THEN atoi(IOEnv.VERIF_SEED) ELSE 0
 Selected(x, sd) == (x[1] + 2 * x[2] + 3 * x[3] + 5 * x[4] + 7 * x[5] + 11 * x[6] + sd) % Mod = 0
 NLoc == K * K + 14
-NSetup == <<4, 5, 5>>
+NSetup == <<5, 5, 5>>
 ASSUME \A f \in 1..3 : NSetup[f] = Len(Setups(Fams[f]))
 AllIdx == {x \in (1..3) \X (1..6) \X (1..5) \X (1..NLoc) \X (1..5) \X (1..3) : x[3] <= NSetup[x[1]]}
 SelectedIdx == LET sd == TLCEval(Seed % 37) IN {x \in AllIdx : Selected(x, sd)}
